@@ -1,4 +1,6 @@
 ENGINES = [
+    {"name": "T", "path": "vlib/tsim.py", "serves_properties": ["C13"],
+     "kind_free_text": "real ThreadWorker.run()/accept/finish_request/murder_keepalived/handle with scripted selector, listener, sockets, executor and virtual time (gunicorn.workers.gthread.time/futures replaced)"},
     {"name": "K", "path": "vlib/ksim.py", "serves_properties": ["C03", "C11"],
      "kind_free_text": "real Arbiter.run() with gunicorn.arbiter.{os,time,select,signal,sock,systemd,random} replaced by a simulated kernel driven by a generated schedule vector"},
     {"name": "F", "path": "checks/c17.py", "serves_properties": ["C17"],
@@ -107,4 +109,11 @@ CHECKS = [
              "SIGABRT) x schedules: hung workers must get ABRT within timeout+2 s of their last heartbeat, KILL within 2 s more, be reaped and replaced; "
              "healthy workers must never get ABRT/KILL from the scan. R: real servers (all worker classes) with hung/stopped/ABRT-ignoring and busy-but-healthy workers.",
      "note": "virtual time; simulated worker processes in K; wall-clock slack in R (budget overrun = inconclusive)"},
+    {"id": "C13", "engine": "T",
+     "technique": "schedule-driven stateful property testing (Hypothesis event schedules) of the real ThreadWorker main loop on scripted poller/sockets/executor with virtual time; connection-set model invariants at every yield point",
+     "text": "threads x worker_connections x keepalive x schedules of connects, full/partial/pipelined/close requests, handler completions, clock steps, "
+             "disconnects and stop, one event per yield point (poller.select / futures.wait) of the real ThreadWorker.run(): open <= max, nr_conns == open, "
+             "no close while a handler is pending, keep-alive expiry at the first scan after the deadline and never before, ready connections "
+             "dispatched within 3 iterations when a thread is free, everything closed and nr_conns == 0 when clients are gone.",
+     "note": "handlers run atomically at yield points; bytecode-level races between pool threads and the loop are not simulated; three open findings are excluded by signature"},
 ]
